@@ -405,6 +405,108 @@ n_calls = len(re.findall(r"processFlags\(handle,\s*flags,\s*(?:COMPRESS|DECOMPRE
 if n_calls < 10:
     die("turbojpeg.c: fewer than 10 legacy entry points call processFlags")
 
+# ---------------------------------------------------------------- RGB565 macros, dither matrix, jdcol565.c loop structure
+def hx(x):
+    return int(x, 0)
+
+m = need(jdc, r"#define\s+PACK_SHORT_565_LE\(r, g, b\)\s*\\?\s*\(\(\(\(r\)\s*<<\s*(\d+)\)\s*&\s*(0x[0-9A-Fa-f]+)\)\s*\|\s*\(\(\(g\)\s*<<\s*(\d+)\)\s*&\s*(0x[0-9A-Fa-f]+)\)\s*\|\s*\(\(b\)\s*>>\s*(\d+)\)\)",
+         "jdcolor.c: PACK_SHORT_565_LE changed shape")
+P565_LE = [int(m.group(1)), hx(m.group(2)), int(m.group(3)), hx(m.group(4)), int(m.group(5))]
+m = need(jdc, r"#define\s+PACK_SHORT_565_BE\(r, g, b\)\s*\\?\s*\(\(\(r\)\s*&\s*(0x[0-9A-Fa-f]+)\)\s*\|\s*\(\(g\)\s*>>\s*(\d+)\)\s*\|\s*\(\(\(g\)\s*<<\s*(\d+)\)\s*&\s*(0x[0-9A-Fa-f]+)\)\s*\|\s*\(\(\(b\)\s*<<\s*(\d+)\)\s*&\s*(0x[0-9A-Fa-f]+)\)\)",
+         "jdcolor.c: PACK_SHORT_565_BE changed shape")
+P565_BE = [hx(m.group(1)), int(m.group(2)), int(m.group(3)), hx(m.group(4)), int(m.group(5)), hx(m.group(6))]
+need(jdc, r"#define\s+PACK_TWO_PIXELS_LE\(l, r\)\s+\(\(r << 16\) \| l\)", "jdcolor.c: PACK_TWO_PIXELS_LE changed")
+need(jdc, r"#define\s+PACK_TWO_PIXELS_BE\(l, r\)\s+\(\(l << 16\) \| r\)", "jdcolor.c: PACK_TWO_PIXELS_BE changed")
+ALIGN_MASK = int(need(jdc, r"#define\s+PACK_NEED_ALIGNMENT\(ptr\)\s+\(\(\(size_t\)\(ptr\)\) & (\d+)\)", "jdcolor.c: PACK_NEED_ALIGNMENT changed").group(1))
+need(jdc, r"#define\s+WRITE_TWO_ALIGNED_PIXELS\(addr, pixels\)\s+\(\(\*\(int \*\)\(addr\)\) = pixels\)", "jdcolor.c: WRITE_TWO_ALIGNED_PIXELS changed")
+m = need(jdc, r"#define\s+DITHER_565_R\(r, dither\)\s+\(\(r\) \+ \(\(dither\) & (0x[0-9A-Fa-f]+)\)\)\s*\n\s*#define\s+DITHER_565_G\(g, dither\)\s+\(\(g\) \+ \(\(\(dither\) & (0x[0-9A-Fa-f]+)\) >> (\d+)\)\)\s*\n\s*"
+            r"#define\s+DITHER_565_B\(b, dither\)\s+\(\(b\) \+ \(\(dither\) & (0x[0-9A-Fa-f]+)\)\)", "jdcolor.c: DITHER_565_R/G/B changed")
+DITH = [hx(m.group(1)), hx(m.group(2)), int(m.group(3)), hx(m.group(4))]
+DITHER_MASK = hx(need(jdc, r"#define\s+DITHER_MASK\s+(0x[0-9A-Fa-f]+|\d+)", "jdcolor.c: DITHER_MASK not found").group(1))
+m = need(jdc, r"#define\s+DITHER_ROTATE\(x\)\s+\(\(\(\(x\) & (0x[0-9A-Fa-f]+)\) << (\d+)\) \| \(\(\(x\) >> (\d+)\) & (0x[0-9A-Fa-f]+)\)\)", "jdcolor.c: DITHER_ROTATE changed")
+DROT = [hx(m.group(1)), int(m.group(2)), int(m.group(3)), hx(m.group(4))]
+m = need(jdc, r"static\s+const\s+JLONG\s+dither_matrix\[4\]\s*=\s*\{([^}]*)\}", "jdcolor.c: dither_matrix[4] not found")
+DMAT = [hx(x.strip()) for x in m.group(1).split(",") if x.strip()]
+if len(DMAT) != 4:
+    die("jdcolor.c: dither_matrix does not have 4 rows")
+j565 = strip_comments(rd("src/jdcol565.c"))
+F565 = re.findall(r"^(\w+_rgb565D?_convert_internal)\s*\(", j565, re.M)
+if sorted(F565) != sorted(["ycc_rgb565_convert_internal", "ycc_rgb565D_convert_internal", "rgb_rgb565_convert_internal",
+                           "rgb_rgb565D_convert_internal", "gray_rgb565_convert_internal", "gray_rgb565D_convert_internal"]):
+    die("jdcol565.c: the six *_rgb565[D]_convert_internal templates are no longer there")
+RESET = []
+for f in F565:
+    b = func_body(j565, f, "jdcol565.c")
+    wl = b.find("while (--num_rows >= 0)")
+    if wl < 0:
+        die("jdcol565.c: %s: row loop not found" % f)
+    pre, loop = b[:wl], b[wl:]
+    for pat, what in ((r"if \(PACK_NEED_ALIGNMENT\(outptr\)\) \{", "alignment branch"), (r"num_cols--;", "num_cols--"),
+                      (r"for \(col = 0; col < \(num_cols >> 1\); col\+\+\)", "pair loop"), (r"if \(num_cols & 1\)", "odd tail"),
+                      (r"WRITE_TWO_ALIGNED_PIXELS\(outptr, rgb\);\s*outptr \+= 4;", "pair store"),
+                      (r"\*\(INT16 \*\)outptr = \(INT16\)rgb;\s*outptr \+= 2;\s*num_cols--;", "aligned single store")):
+        if not re.search(pat, loop):
+            die("jdcol565.c: %s: %s changed shape" % (f, what))
+    init_out = bool(re.search(r"JDIMENSION\s+num_cols\s*=\s*cinfo->output_width\s*;", pre))
+    init_in = bool(re.search(r"num_cols\s*=\s*cinfo->output_width\s*;", loop))
+    if not (init_out or init_in):
+        die("jdcol565.c: %s: num_cols is never initialised from output_width" % f)
+    RESET.append(init_in)
+    isD = "565D" in f
+    if isD != bool(re.search(r"JLONG d0 = dither_matrix\[cinfo->output_scanline & DITHER_MASK\];", pre)):
+        die("jdcol565.c: %s: d0 initialisation changed" % f)
+    if isD and len(re.findall(r"d0 = DITHER_ROTATE\(d0\);", loop)) != 2:
+        die("jdcol565.c: %s: expected exactly two DITHER_ROTATE per pair and none in the single-pixel branches" % f)
+if len(set(RESET)) != 1:
+    die("jdcol565.c: the six templates no longer agree on where num_cols is initialised")
+
+# ---------------------------------------------------------------- CMYK <-> YCCK statement shapes
+cb_ = func_body(jcc, "cmyk_ycck_convert", "jccolor.c")
+CMYK_IN = []
+for ch in ("r", "g", "b"):
+    m = re.search(r"\b%s = _MAXJSAMPLE - RANGE_LIMIT\(inptr\[(\d)\]\);" % ch, cb_)
+    if not m:
+        die("jccolor.c: cmyk_ycck_convert: '%s = _MAXJSAMPLE - RANGE_LIMIT(inptr[k])' not found" % ch)
+    CMYK_IN.append(int(m.group(1)))
+m = re.search(r"outptr3\[col\] = inptr\[(\d)\];\s*inptr \+= (\d);", cb_)
+if not m:
+    die("jccolor.c: cmyk_ycck_convert: K pass-through / pixel stride changed")
+CMYK_K, CMYK_PS = int(m.group(1)), int(m.group(2))
+for o, (a, b2, c) in (("0", ("R_Y_OFF", "G_Y_OFF", "B_Y_OFF")), ("1", ("R_CB_OFF", "G_CB_OFF", "B_CB_OFF")), ("2", ("R_CR_OFF", "G_CR_OFF", "B_CR_OFF"))):
+    if not re.search(r"outptr%s\[col\] = \(_JSAMPLE\)\(\(ctab\[r \+ %s\] \+ ctab\[g \+ %s\] \+\s*ctab\[b \+ %s\]\) >> SCALEBITS\);" % (o, a, b2, c), cb_):
+        die("jccolor.c: cmyk_ycck_convert: component %s arithmetic changed" % o)
+db_ = func_body(jdc, "ycck_cmyk_convert", "jdcolor.c")
+YCCK_OUT = []
+for k, pat in ((0, r"outptr\[(\d)\] = range_limit\[_MAXJSAMPLE - \(y \+ Crrtab\[cr\]\)\];"),
+               (1, r"outptr\[(\d)\] = range_limit\[_MAXJSAMPLE - \(y \+\s*\(\(int\)RIGHT_SHIFT\(Cbgtab\[cb\] \+ Crgtab\[cr\],\s*SCALEBITS\)\)\)\];"),
+               (2, r"outptr\[(\d)\] = range_limit\[_MAXJSAMPLE - \(y \+ Cbbtab\[cb\]\)\];")):
+    m = re.search(pat, db_)
+    if not m:
+        die("jdcolor.c: ycck_cmyk_convert: channel %d statement changed shape" % k)
+    YCCK_OUT.append(int(m.group(1)))
+m = re.search(r"outptr\[(\d)\] = inptr3\[col\];\s*outptr \+= (\d);", db_)
+if not m:
+    die("jdcolor.c: ycck_cmyk_convert: K pass-through / pixel stride changed")
+YCCK_K, YCCK_PS = int(m.group(1)), int(m.group(2))
+
+# ---------------------------------------------------------------- prepare_range_limit_table (jdmaster.c): one shape for 8/12/16 bit
+jdmas = strip_comments(rd("src/jdmaster.c"))
+rlb = func_body(jdmas, "prepare_range_limit_table", "jdmaster.c")
+RL_SHAPE = (r"(?P<t>\w+) = \(\w+ \*\)\s*\(\*cinfo->mem->alloc_small\) \(\(j_common_ptr\)cinfo, JPOOL_IMAGE,\s*\((\d+) \* \((?P<M>MAXJ\d*SAMPLE) \+ 1\) \+ (?P<C>CENTERJ\d*SAMPLE)\) \*\s*sizeof\(\w+\)\);\s*"
+            r"(?P=t) \+= \((?P=M) \+ 1\);\s*cinfo->sample_range_limit = (?:\(JSAMPLE \*\))?(?P=t);\s*"
+            r"memset\((?P=t) - \((?P=M) \+ 1\), 0,\s*\((?P=M) \+ 1\) \* sizeof\(\w+\)\);\s*"
+            r"for \(i = 0; i <= (?P=M); i\+\+\)\s*(?P=t)\[i\] = \(\w+\)i;\s*"
+            r"(?P=t) \+= (?P=C);\s*"
+            r"for \(i = (?P=C); i < 2 \* \((?P=M) \+ 1\); i\+\+\)\s*(?P=t)\[i\] = (?P=M);\s*"
+            r"memset\((?P=t) \+ \(2 \* \((?P=M) \+ 1\)\), 0,\s*\(2 \* \((?P=M) \+ 1\) - (?P=C)\) \* sizeof\(\w+\)\);\s*"
+            r"memcpy\((?P=t) \+ \(4 \* \((?P=M) \+ 1\) - (?P=C)\),\s*cinfo->sample_range_limit, (?P=C) \* sizeof\(\w+\)\);")
+RL = [(mm.group("M"), mm.group("C"), int(mm.group(2))) for mm in re.finditer(RL_SHAPE, rlb)]
+if [x[0] for x in RL] != ["MAXJSAMPLE", "MAXJ12SAMPLE", "MAXJ16SAMPLE"] or [x[1] for x in RL] != ["CENTERJSAMPLE", "CENTERJ12SAMPLE", "CENTERJ16SAMPLE"] \
+        or any(x[2] != 5 for x in RL):
+    die("jdmaster.c: prepare_range_limit_table no longer has the three (8/12/16-bit) branches of the known shape")
+if not re.search(r"if \(cinfo->data_precision <= 8\)", rlb) or not re.search(r"else if \(cinfo->data_precision <= 12\)", rlb):
+    die("jdmaster.c: prepare_range_limit_table precision dispatch changed")
+
 # ---------------------------------------------------------------- SIMD (x86-64) instantiations, optional
 SIMD = {}
 SIMD_FIX = []
@@ -523,3 +625,22 @@ for n, v in sorted(TJFLAGS.items(), key=lambda kv: kv[1]):
 P("Definition OP_COMPRESS : Z := %d.\nDefinition OP_DECOMPRESS : Z := %d." % (OP_COMPRESS, OP_DECOMPRESS))
 P("Definition process_flags_entries : list (Z * Z * Z * Z * Z) :=\n  [%s]." % ";\n   ".join("(%d, %d, %d, %d, %d)" % e for e in PF_ENTRIES))
 P("Definition process_flags_callers : Z := %d." % n_calls)
+P("\n(* RGB565 (jdcolor.c macros, jdcol565.c loop structure) *)")
+P("Definition pack565_le : list Z := %s.   (* ((r << a) & m) | ((g << b) & n) | (b >> c): [a; m; b; n; c] *)" % zl(P565_LE))
+P("Definition pack565_be : list Z := %s.   (* (r & m) | (g >> a) | ((g << b) & n) | ((b << c) & o): [m; a; b; n; c; o] *)" % zl(P565_BE))
+P("Definition pack_align_mask : Z := %d." % ALIGN_MASK)
+P("Definition dither565 : list Z := %s.   (* R: + (d & m0); G: + ((d & m1) >> s); B: + (d & m2): [m0; m1; s; m2] *)" % zl(DITH))
+P("Definition DITHER_MASK : Z := %d." % DITHER_MASK)
+P("Definition dither_rotate : list Z := %s.   (* (((x) & m) << a) | (((x) >> b) & n): [m; a; b; n] *)" % zl(DROT))
+P("Definition dither_matrix : list Z := %s." % zl(DMAT))
+P("Definition rgb565_numcols_reset_per_row : bool := %s.   (* is num_cols re-initialised from output_width inside the row loop? *)" % str(RESET[0]).lower())
+P("\n(* CMYK <-> YCCK (jccolor.c cmyk_ycck_convert, jdcolor.c ycck_cmyk_convert) *)")
+P("Definition cmyk_in_offsets : list Z := %s.   (* r,g,b = _MAXJSAMPLE - RANGE_LIMIT(inptr[k]) *)" % zl(CMYK_IN))
+P("Definition cmyk_in_k : Z := %d.\nDefinition cmyk_in_pixelsize : Z := %d." % (CMYK_K, CMYK_PS))
+P("Definition ycck_out_offsets : list Z := %s.   (* outptr[k] = range_limit[_MAXJSAMPLE - (y + chroma_k)] *)" % zl(YCCK_OUT))
+P("Definition ycck_out_k : Z := %d.\nDefinition ycck_out_pixelsize : Z := %d." % (YCCK_K, YCCK_PS))
+P("\n(* prepare_range_limit_table (jdmaster.c), identical shape for 8/12/16 bit; indices relative to sample_range_limit,")
+P("   (kind, a, c, la, lc): start = a*(MAX+1) + c*CENTER, length = la*(MAX+1) + lc*CENTER;")
+P("   kind 0: zero, 1: table[i] = i, 2: MAX, 3: copy of sample_range_limit[0 .. length) *)")
+P("Definition range_limit_alloc : Z * Z := (5, 1).")
+P("Definition range_limit_ops : list (Z * Z * Z * Z * Z) :=\n  [(0, (-1), 0, 1, 0); (1, 0, 0, 1, 0); (2, 0, 2, 2, (-1)); (0, 2, 1, 2, (-1)); (3, 4, 0, 0, 1)].")
